@@ -53,13 +53,16 @@ META = {
                  'sqlrepr string-literal escaping is modelled locally (per-character map) and tied by string equality',
                  'index texts are hand-modelled and tied by string equality (join-table and ALTER TABLE constraint texts are also '
                  'translated and proved equal to the model)',
-                 'stateful part: SQLObject.dropTable / createJoinTables / dropJoinTables and the connection classes\' statement '
-                 'methods are translated and run against the catalogue model (world-threading reading Model/PyDdlW.lean; the '
-                 'statement reader execSQL of Model/DdlXW.lean is hand-written specification) and proved equal to dropTableG / '
-                 'createLinks / dropLinks; SQLObject.createTable / createIndexes / addColumn / delColumn are translated but only '
-                 'their connection-level statements are proved (createTable itself stays on the catalogue model + executed '
-                 'SQLite scenarios); not translated: sqlmeta.addColumn / delColumn (class surgery), the __init__ methods of the '
-                 'column classes, DBAPI.createSQL (sqlmeta.createSQL)'],
+                 'stateful part: SQLObject.createTable / dropTable / createJoinTables / dropJoinTables / createIndexes and the seven '
+                 'connection classes\' createTable / dropTable / _SO_createJoinTable / _SO_dropJoinTable / _SO_createIndex are '
+                 'translated, run against the catalogue model (world-threading reading Model/PyDdlW.lean; the statement reader '
+                 'execSQL of Model/DdlXW.lean is hand-written specification) and proved equal to createTableG / dropTableG / '
+                 'createLinks / dropLinks / createIdx (createTable / createIndexes not on MySQL, whose ALTER TABLE ... ADD INDEX the '
+                 'reader does not follow); addColumn (7 dialects) and delColumn (6) are proved to issue exactly the model\'s '
+                 'statements; sqlite delColumn (recreateTableWithoutColumn) is translated, its index loss is a theorem about the '
+                 'translated source (C14_translated_delColumn_drops_indexes_full_FALSE), its general statement sequence is not '
+                 'proved; not translated: sqlmeta.addColumn / delColumn (class surgery), the __init__ methods of the column '
+                 'classes, DBAPI.createSQL (sqlmeta.createSQL)'],
     'assumptions': ['well-formed identifiers (decidable hypothesis `declWF`): table / id / db names and foreign-key target names are '
                     'non-empty words without blanks, quotes, commas or parentheses and are not constraint keywords; defaultSQL is a '
                     'self-contained keyword-free fragment for the reader; the renderer did not refuse the declaration (EnumCol on '
@@ -1165,60 +1168,81 @@ def scenario_if_flags(ctx):
             for link_present in (True, False):
                 for op in ('drop', 'create'):
                     for flag in (True, False):
-                        case = {'scenario': 'if-flags', 'shape': shape, 'class_table': cls_present, 'link_table': link_present,
-                                'op': op, 'joins_flag': flag}
-                        try:
-                            for t in own_tables:
-                                conn.query('DROP TABLE IF EXISTS %s' % t)
-                            for c in classes:
-                                if c is not X or cls_present:
-                                    conn.query(conn.createTableSQL(c)[0])
-                            if link_present:
-                                conn._SO_createJoinTable(join)
-                            before = [t for t in tables() if t in own_tables]
-                            states, err = [], None
-                            for rep in (1, 2):
-                                try:
-                                    if op == 'drop':
-                                        X.dropTable(ifExists=True, dropJoinTables=flag)
-                                    else:
-                                        X.createTable(ifNotExists=True, createJoinTables=flag)
-                                except Exception as e:
-                                    err = 'call %d raises %s: %s' % (rep, sqlo.exc_name(e), str(e)[:80])
-                                    break
-                                states.append([t for t in tables() if t in own_tables])
-                            # the property's own expectation
-                            want = set(before)
-                            if op == 'drop' and cls_present:
-                                want.discard(X.sqlmeta.table)
-                                if flag and owns:
-                                    want.discard(link)
-                            if op == 'create' and not cls_present:
-                                want.add(X.sqlmeta.table)
-                                if flag and owns:
-                                    want.add(link)
-                            what = None
-                            if err:
-                                what = err + '; tables now %r (before %r)' % ([t for t in tables() if t in own_tables], before)
-                            elif set(states[0]) != want:
-                                what = 'tables after the first call %r, expected %r' % (states[0], sorted(want))
-                            elif states[1] != states[0]:
-                                what = 'the second call changed the catalogue: %r -> %r' % (states[0], states[1])
-                            if what:
-                                key = 'C14:drop-if-present' if op == 'drop' else 'C14:create-if-missing'
-                                ctx.oracle_fail('%s:%s' % (key, 'raises' if err else 'wrong-result'),
-                                                '%s(%s=True, %s=%s) x2 on %s with class table %s, link table %s: %s'
-                                                % ('dropTable' if op == 'drop' else 'createTable', 'ifExists' if op == 'drop' else 'ifNotExists',
-                                                   'dropJoinTables' if op == 'drop' else 'createJoinTables', flag, shape,
-                                                   'present' if cls_present else 'absent', 'present' if link_present else 'absent', what), case)
-                            ctx.count('if-flags-cell')
-                            lines.append('cat %s 1 %s %s %d %s %d %s' % (op, b01(flag), hx(X.sqlmeta.table), len(declared_links),
-                                                                      ' '.join(hx(l) for l in declared_links), len(before),
-                                                                      ' '.join(hx(t) for t in before)))
-                            lines[-1] = ' '.join(lines[-1].split())
-                            reals.append(('err' if err else 'ok ' + ' '.join(sorted(states[0])), case))
-                        except Exception as e:
-                            ctx.oracle_fail('C14:if-flags:raises', 'scenario raises %s: %s' % (type(e).__name__, e), case)
+                      for iff in (True, False):
+                          case = {'scenario': 'if-flags', 'shape': shape, 'class_table': cls_present, 'link_table': link_present,
+                                  'op': op, 'joins_flag': flag, 'if_flag': iff}
+                          try:
+                              for t in own_tables:
+                                  conn.query('DROP TABLE IF EXISTS %s' % t)
+                              for c in classes:
+                                  if c is not X or cls_present:
+                                      conn.query(conn.createTableSQL(c)[0])
+                              if link_present:
+                                  conn._SO_createJoinTable(join)
+                              before = [t for t in tables() if t in own_tables]
+                              states, err = [], None
+                              for rep in ((1, 2) if iff else (1,)):
+                                  try:
+                                      if op == 'drop':
+                                          X.dropTable(ifExists=iff, dropJoinTables=flag)
+                                      else:
+                                          X.createTable(ifNotExists=iff, createJoinTables=flag)
+                                  except Exception as e:
+                                      err = 'call %d raises %s: %s' % (rep, sqlo.exc_name(e), str(e)[:80])
+                                      break
+                                  states.append([t for t in tables() if t in own_tables])
+                              # the property's own expectation
+                              want = set(before)
+                              if op == 'drop' and cls_present:
+                                  want.discard(X.sqlmeta.table)
+                                  if flag and owns:
+                                      want.discard(link)
+                              if op == 'create' and not cls_present:
+                                  want.add(X.sqlmeta.table)
+                                  if flag and owns:
+                                      want.add(link)
+                              what = None
+                              if not iff:
+                                  # plain createTable() / dropTable(): the database must have been asked.  A class table that is
+                                  # already there / not there, or an owned link table in that state, makes the statement fail;
+                                  # a silent success means a statement was skipped (or the if-flag was applied although not given)
+                                  must_fail = (cls_present if op == 'create' else not cls_present) or \
+                                      (bool(flag and owns) and (link_present if op == 'create' else not link_present))
+                                  if must_fail and not err:
+                                      ctx.oracle_fail('C14:plain-%s:silently-skips' % op,
+                                                      '%s(%s=%s) without the if-flag on %s with class table %s, link table %s ends normally '
+                                                      '(tables %r -> %r): a statement the database would refuse was not issued'
+                                                      % ('dropTable' if op == 'drop' else 'createTable',
+                                                         'dropJoinTables' if op == 'drop' else 'createJoinTables', flag, shape,
+                                                         'present' if cls_present else 'absent', 'present' if link_present else 'absent',
+                                                         before, states[0]), case)
+                                  elif not must_fail and (err or set(states[0]) != want):
+                                      ctx.oracle_fail('C14:plain-%s:%s' % (op, 'raises' if err else 'wrong-result'),
+                                                      'plain %s on %s (class table %s, link table %s, joins flag %s): %s'
+                                                      % (op, shape, 'present' if cls_present else 'absent',
+                                                         'present' if link_present else 'absent', flag,
+                                                         err or 'tables %r, expected %r' % (states[0], sorted(want))), case)
+                              elif err:
+                                  what = err + '; tables now %r (before %r)' % ([t for t in tables() if t in own_tables], before)
+                              elif set(states[0]) != want:
+                                  what = 'tables after the first call %r, expected %r' % (states[0], sorted(want))
+                              elif states[1] != states[0]:
+                                  what = 'the second call changed the catalogue: %r -> %r' % (states[0], states[1])
+                              if what:
+                                  key = 'C14:drop-if-present' if op == 'drop' else 'C14:create-if-missing'
+                                  ctx.oracle_fail('%s:%s' % (key, 'raises' if err else 'wrong-result'),
+                                                  '%s(%s=True, %s=%s) x2 on %s with class table %s, link table %s: %s'
+                                                  % ('dropTable' if op == 'drop' else 'createTable', 'ifExists' if op == 'drop' else 'ifNotExists',
+                                                     'dropJoinTables' if op == 'drop' else 'createJoinTables', flag, shape,
+                                                     'present' if cls_present else 'absent', 'present' if link_present else 'absent', what), case)
+                              ctx.count('if-flags-cell')
+                              lines.append('cat %s %s %s %s %d %s %d %s' % (op, b01(iff), b01(flag), hx(X.sqlmeta.table), len(declared_links),
+                                                                        ' '.join(hx(l) for l in declared_links), len(before),
+                                                                        ' '.join(hx(t) for t in before)))
+                              lines[-1] = ' '.join(lines[-1].split())
+                              reals.append(('err' if err else 'ok ' + ' '.join(sorted(states[0])), case))
+                          except Exception as e:
+                              ctx.oracle_fail('C14:if-flags:raises', 'scenario raises %s: %s' % (type(e).__name__, e), case)
         # plain create then plain drop of the whole shape
         try:
             for t in own_tables:
